@@ -248,3 +248,11 @@ Theorem C18_mappings : forall (g : vgraph) (lab p : list N),
     exists s, is_aut g s /\ forall a b, In (a, b) m <-> (In a (node_ids g) /\ b = s a).
 Proof. exact mappings_spec. Qed.
 Print Assumptions C18_mappings.
+
+(** has_nontrivial_automorphism() (= more than one minimal leaf) holds exactly when some structure-preserving self-map
+    moves a node. *)
+Theorem C18_has_nontrivial : forall (g : vgraph) (lab p : list N),
+  wf g -> kinds_ok g -> arcs_ok g -> fst (canon_search g) = Some (lab, p) ->
+  (1 < length (min_leaves g) <-> exists s v, is_aut g s /\ In v (node_ids g) /\ s v <> v).
+Proof. exact has_nontrivial_spec. Qed.
+Print Assumptions C18_has_nontrivial.
